@@ -14,6 +14,7 @@ enum class E8 : std::uint8_t { A = 0, B = 200 };
 enum class E32 : std::int32_t { N = -70000, Z = 0, P = 70000 };
 using BndR = nop::BoundedReader<nop::PedanticBufferReader>;
 using BndW = nop::BoundedWriter<nop::PedanticBufferWriter>;
+using BndBW = vt::LooseBounded<nop::BufferWriter>;  // bounded (loosely) over the unchecked writer: Prepare must reach it
 }  // namespace vt
 
 #define VT_SCALAR_COMMON(T, t, MAXN)                                                              \
@@ -34,6 +35,7 @@ using BndW = nop::BoundedWriter<nop::PedanticBufferWriter>;
   VT_HARNESS(h_cap_##t##_bw) { vt::lemma_capacity<T, nop::BufferWriter, MAXN>(); }                \
   VT_HARNESS(h_cap_##t##_pw) { vt::lemma_capacity<T, nop::PedanticBufferWriter, MAXN>(); }        \
   VT_HARNESS(h_cap_##t##_bdw) { vt::lemma_capacity<T, vt::BndW, MAXN>(); }                        \
+  VT_HARNESS(h_cap_##t##_bdbw) { vt::lemma_capacity<T, vt::BndBW, MAXN>(); }                      \
   VT_HARNESS(h_faultw_##t) { vt::lemma_fault_write<T>(); }                                        \
   VT_HARNESS(h_faultr_##t) { vt::lemma_fault_read<T, MAXN>(); }
 
